@@ -38,6 +38,21 @@ CLAIMED = {
              "mapping); corner cells of multi-axis padding follow sequential extension in the order of boundary_width.",
         technique="contract-based deductive verification: symbolic execution of the real functions + z3 VCs",
     ),
+    "C01": dict(
+        category="proof",
+        text=("Deductive proof of the top-level contract of the real Grid.diff/interp/min/max on simple grids, executed "
+              "symbolically through _1d_grid_ufunc_dispatch, _select_grid_ufunc, GridUFunc.__call__, apply_as_grid_ufunc, "
+              "pad, _apply (apply_ufunc contract model), the gridops stencil and _reattach_coords: result dims = input dims in "
+              "input order with the axis dimension replaced, size = len_to(n), every value = op of the two geometrically adjacent "
+              "inputs with out-of-range neighbours from the rule in force; multi-axis = composition in the given order; to=None "
+              "= documented default shift. Cell counts, extra-dimension sizes, data and fill values are universally quantified; "
+              "operator x shift x rule (all 96) and spellings/layouts are enumerated. Plus per-function contracts of the 4 stencil "
+              "helpers and the 32 decorated ufuncs (signature, body, boundary_width re-derived from axis geometry)."),
+        design_ref="DESIGN.md 7/C01",
+        note=COMMON_NOTE + "Callees are inlined into the top-level proof (stronger than modular use of their contracts); the "
+             "signature text matching runs concretely on the enumerated axis names (its contract is C15/C13).",
+        technique="contract-based deductive verification: symbolic execution of the real functions + z3 VCs",
+    ),
 }
 
 NOT_YET = {}
